@@ -207,17 +207,28 @@ func (k *c26Run) flush() {
 		k.maxBatch = total
 	}
 	if total > c26RejectCeiling || k.single {
+		found := false
+		var biggest *c26Case
 		for _, c := range b {
 			if !c.drove || c.valid {
 				continue
+			}
+			if biggest == nil || c26Parse(c.hdr[:]).BodyLen > c26Parse(biggest.hdr[:]).BodyLen {
+				biggest = c
 			}
 			k.remeas++
 			c.reset()
 			alloc := k.measure(func() { c26ReadFrame(c) })
 			if alloc > c26RejectCeiling {
-				k.tripped = true
+				k.tripped, found = true, true
 				k.violate(c, "body-allocated-before-header-validation", "ReadFrame allocated %d bytes (> %d) for a header that must be rejected; err=%v", alloc, c26RejectCeiling, c.rerr)
 			}
+		}
+		// the slab pool can serve the repeated call from the buffer the first call allocated:
+		// the batch (only calls that must reject, ~150 bytes of error value each) still paid for it
+		if !found && total > c26RejectCeiling && biggest != nil {
+			k.tripped = true
+			k.violate(biggest, "body-allocated-before-header-validation", "a batch of %d ReadFrame calls that must all reject allocated %d bytes (> %d); largest declared body in the batch is this header", len(b), total, c26RejectCeiling)
 		}
 	}
 	for _, c := range b {
@@ -384,6 +395,29 @@ func TestVerifC26Wire(t *testing.T) {
 	r.Guard("alloc-meter-self-test", big >= 2<<20 && none < 4096, "2MiB allocation measured as %d bytes, empty call as %d", big, none)
 	th := r.Thorough()
 
+	// ---- 0. early-allocation probe: malformed headers declaring bodies of escalating slab
+	// classes, each call measured on its own while the slab pool is still cold. A reader that
+	// allocates the body before validating is reported here with a MiB-sized allocation, and
+	// the later sections then stop driving it with GiB-sized declared lengths.
+	k.e = r.NewEnum("early-allocation-probe")
+	k.single = true
+	for _, bl := range []uint32{16<<10 + 1, 64<<10 + 1, 1<<20 + 1} {
+		for _, f := range []c26Fields{
+			{c26Magic, 1, 0, 1, 1, 7, 11, bl, 0}, // oversize for the 1024 limit
+			{c26Magic, 1, 0, 9, 1, 7, 11, bl, 0}, // bad kind
+			{c26Magic, 1, 0, 1, 9, 7, 11, bl, 0}, // bad priority
+			{c26Magic, 1, 0, 1, 1, 7, 11, bl, 1}, // reserved bit
+			{c26Magic, 1, 1, 1, 1, 7, 11, bl, 0}, // flag bit
+			{c26Magic, 2, 0, 1, 1, 7, 11, bl, 0}, // version
+			{0x4b57, 1, 0, 1, 1, 7, 11, bl, 0},   // magic
+		} {
+			k.add("probe", f.bytes(), 1024, 0)
+			k.flush()
+		}
+	}
+	k.single = false
+	k.e.Done(true, map[string]any{"declared_body": "16KiB+1, 64KiB+1, 1MiB+1", "malformed_classes": 7}, "one measured ReadFrame per malformed class and slab class, cold pool")
+
 	// ---- 1. product of per-field menus over all 24 header bytes
 	k.e = r.NewEnum("header-field-product")
 	magics := []uint16{c26Magic, 0x0000, 0x4b57, 0x574a, 0x564b, 0xffff}
@@ -496,7 +530,10 @@ func TestVerifC26Wire(t *testing.T) {
 	r.Guard("square-valid-pairs", sq.Outcome("valid")+sq.Outcome("valid-truncated-body") >= 20, "valid kind/priority cases=%d", sq.Outcome("valid")+sq.Outcome("valid-truncated-body"))
 	r.Guard("truncated-bodies-seen", mu.Outcome("valid-truncated-body") >= 1 && mu.Outcome("valid") >= 1, "mutation section: valid=%d truncated-body=%d", mu.Outcome("valid"), mu.Outcome("valid-truncated-body"))
 	r.Guard("streams", st.Outcome("roundtrip") >= 20 && st.Outcome("write-rejected") >= 1, "stream roundtrips=%d write-rejected=%d", st.Outcome("roundtrip"), st.Outcome("write-rejected"))
-	r.Sample(map[string]any{"section": "product", "header_hex": hex.EncodeToString(func() []byte { b := (c26Fields{c26Magic, 1, 0, 3, 3, 0xffff, math.MaxUint64, 1025, 0}).bytes(); return b[:] }()), "max_body_bytes": 1024, "expected": "oversize-body: error, zero body reads, <16KiB allocated"})
+	r.Sample(map[string]any{"section": "product", "header_hex": hex.EncodeToString(func() []byte {
+		b := (c26Fields{c26Magic, 1, 0, 3, 3, 0xffff, math.MaxUint64, 1025, 0}).bytes()
+		return b[:]
+	}()), "max_body_bytes": 1024, "expected": "oversize-body: error, zero body reads, <16KiB allocated"})
 	r.Sample(map[string]any{"section": "mutation", "header_hex": hex.EncodeToString(func() []byte { b := bases[1].bytes(); b[23] = 1; return b[:] }()), "max_body_bytes": 1024, "expected": "bad-reserved"})
 	r.Assume("ReadFrame is driven only with bodies <= 1 MiB + 1; larger well-formed bodies are checked through DecodeHeader alone")
 	r.Assume("allocation of a rejecting ReadFrame call = runtime.MemStats.TotalAlloc delta with GOMAXPROCS=1 (batches of 24 calls under 16 KiB clear all their calls; otherwise call-by-call)")
